@@ -300,6 +300,33 @@ theorem faulty_swap_dependents_unavailable (A : Arith) (S : Sys) (l : Level) (up
     · rfl
     · simp [hp, bnd, Res.bind]
 
+/-! non-vacuity: a concrete two-level hierarchy with a mix of faulty and well-formed files satisfies the hypotheses, and the
+accessors split into available and unavailable ones as the theorems say -/
+namespace Ex
+def P : Parsers :=
+  { num := fun s => if s.all Char.isDigit && !s.isEmpty then some (s.foldl (fun a c => a * 10 + (c.toNat - 48)) 0 : Nat) else none
+    fnum := fun _ => some 0
+    scan := fun l => match OomdModel.Path.split l ' ' with | [k, _] => some (k, 7) | _ => none
+    scanIo := fun _ => none }
+def good : FileSt := .lines ["4096".toList]
+def child : CgFiles :=
+  { memCurrent := .absent, swapCurrent := good, swapMax := .lines ["max".toList], memLow := good, memMin := .lines [],
+    memHigh := good, memHighTmp := .denied, memMax := good, memStat := .lines ["anon 1".toList], cgStat := .unreadable,
+    events := .lines ["populated 1".toList], oomGroupF := .absent, memPressure := .absent, ioPressure := .lines [], ioStat := .absent }
+def parent : CgFiles := { child with memCurrent := good, memMin := good, swapMax := .absent }
+def lChild : Level := { r := readingsOf P child, parentOpen := true, sibs := [readingsOf P child] }
+def lParent : Level := { r := readingsOf P parent, parentOpen := true, sibs := [readingsOf P parent] }
+def chain : List Level := [lChild, lParent]
+def A : Arith := { scale := fun r _ _ => r, avg := fun p c => p + c, ioCost := fun _ => 0, ratio := fun a _ => a }
+def S : Sys := { swapTotal := 0, swapUsed := 0, rootUsage := .ok 0 }
+end Ex
+
+example : chainSafe Ex.chain = true := by decide
+example : (Acc.all.filter fun a => evalAcc Ex.A Ex.S ⟨0, none, none⟩ Ex.lChild [Ex.lParent] a == .ok ()) =
+    -- (memory_protection is available although memory.current is not: the siblings' raw protections sum to 0, and
+    --  `normalizedProtection` answers 0 for that without looking further - the `sum = 0` branch of the model)
+    [.swapUsage, .swapMax, .memoryLow, .memoryHigh, .memoryMax, .isPopulated, .memoryStat, .anonUsage, .memoryProtection] := by decide
+
 end Accessors
 
 /-- non-vacuity: the fault domain is inhabited by distinct states -/
